@@ -123,7 +123,7 @@ def run_case(case, bus, ex):
         return run_showcase(case, bus, ex)
     rng = env.rng_for(*case["rs"])
     name, D, N, v = case["cls"], case["D"], case["N"], case["v"]
-    L = float(rng.choice([1.0, 2 * np.pi, 10 ** rng.uniform(-2, 2)]))
+    L = float([1.0, 2 * np.pi, 0.37, 11.0, 40.0, 10 ** rng.uniform(-2, 2)][(N + D + v + case["rs"][-1]) % 6])        # box sizes below and above 2 pi are reached deterministically
     if case["kind"] == "showcase":
         return run_showcase(case, bus, ex)
     if case["kind"] == "wave":
